@@ -15,6 +15,7 @@ import (
 	"encoding/binary"
 	"errors"
 	"fmt"
+	"net"
 	"os"
 	"runtime"
 	"sort"
@@ -281,6 +282,14 @@ func freshAddr(network string) string {
 	case "inproc":
 		return fmt.Sprintf("inproc-%d-%d", os.Getpid(), n)
 	default:
+		// a port nobody is listening on right now (other processes of the machine use ports too)
+		for try := 0; try < 64; try++ {
+			addr := fmt.Sprintf("127.0.0.1:%d", 20000+(os.Getpid()*37+int(n)*3+try*101)%30000)
+			if l, err := net.Listen("tcp", addr); err == nil {
+				l.Close()
+				return addr
+			}
+		}
 		return fmt.Sprintf("127.0.0.1:%d", 20000+(os.Getpid()*37+int(n)*3)%30000)
 	}
 }
